@@ -278,6 +278,8 @@ GIT_FILES = {
     "tracked_dir/w.py": "t", "tracked_dir/n.log": "u", "plain.py": "t", "other.txt": "u",
     "untracked_dir/sub/w.log": "u", "untracked_dir/sub/k.py": "u", "untracked_dir/build/x.o": "u", "only_ignored/a.log": "u", "only_ignored/b.log": "u",
     "d/keep.log": "u", "d/e/f.tmp": "u",
+    # siblings whose names merely begin like an ignored directory's name
+    "e/build.log": "u", "e/build-x/k.py": "u", "e/buildx.tmp": "u", "build.log": "u", "build-cache/c.py": "u", "buildx.py": "u", "d.log": "u", "d-extra/x.tmp": "u", "dx.tmp": "u",
 }
 
 
